@@ -202,6 +202,9 @@ func boolPhis(fn *ssa.Function) map[*ssa.Phi]int {
 			}
 			if bt, ok := ph.Type().Underlying().(*types.Basic); ok && bt.Info()&types.IsBoolean != 0 {
 				m[ph] = len(m)
+			} else if types.IsInterface(ph.Type()) && ph.Type().String() == "error" {
+				// error values merged from several branches and compared with nil later
+				m[ph] = len(m)
 			}
 		}
 	}
@@ -289,6 +292,40 @@ func (w *Walk) resolveCond(c ssa.Value, env []int8) (ssa.Value, bool) {
 	return c, pol
 }
 
+// resolveVal resolves a non-boolean phi through the environment (all phis
+// are tracked, see allPhis).
+func (w *Walk) resolveVal(v ssa.Value, env []int8) (ssa.Value, bool) {
+	for depth := 0; depth < 8; depth++ {
+		ph, ok := v.(*ssa.Phi)
+		if !ok {
+			return v, true
+		}
+		i, ok := w.phis[ph]
+		if !ok || env[i] < 0 || int(env[i]) >= len(ph.Edges) {
+			return v, false
+		}
+		v = ph.Edges[env[i]]
+	}
+	return v, false
+}
+
+func knownNonNil(v ssa.Value) bool {
+	switch x := v.(type) {
+	case *ssa.Alloc, *ssa.MakeMap, *ssa.MakeSlice, *ssa.MakeChan, *ssa.MakeClosure, *ssa.Function, *ssa.Global:
+		return true
+	case *ssa.MakeInterface:
+		return true // a non-nil interface value (typed)
+	case *ssa.Call:
+		if f := x.Call.StaticCallee(); f != nil {
+			switch f.String() {
+			case "fmt.Errorf", "errors.New":
+				return true
+			}
+		}
+	}
+	return false
+}
+
 // edgeAtoms computes, for block b in environment env, which successors are
 // feasible and the atom holding on each.
 func (w *Walk) edgeAtom(b *ssa.BasicBlock, succ int, env []int8) (Atom, bool, bool, ssa.Value, bool) {
@@ -307,6 +344,32 @@ func (w *Walk) edgeAtom(b *ssa.BasicBlock, succ int, env []int8) (Atom, bool, bo
 			return Atom{}, false, true, nil, false
 		}
 		return Atom{}, false, false, nil, false
+	}
+	// comparisons of a value known to be non-nil with nil are decided
+	if bo, ok := v.(*ssa.BinOp); ok && (bo.Op == token.EQL || bo.Op == token.NEQ) {
+		var other ssa.Value
+		if k, ok := bo.Y.(*ssa.Const); ok && k.Value == nil {
+			other = bo.X
+		} else if k, ok := bo.X.(*ssa.Const); ok && k.Value == nil {
+			other = bo.Y
+		}
+		if other != nil {
+			if pv, ok := other.(*ssa.Phi); ok {
+				if i, ok := w.phis[pv]; ok && env[i] >= 0 {
+					other = pv.Edges[env[i]]
+				}
+			}
+			if rv, ok := w.resolveVal(other, env); ok {
+				other = rv
+			}
+			if knownNonNil(other) {
+				val := (bo.Op == token.NEQ) == pol // value of the condition
+				if (succ == 0) == val {
+					return Atom{}, false, true, nil, false
+				}
+				return Atom{}, false, false, nil, false
+			}
+		}
 	}
 	// truth of the resolved value v on this edge
 	vt := pol
@@ -409,6 +472,9 @@ func (w *Walk) From(b *ssa.BasicBlock, idx int) *Walk {
 						break
 					}
 					if k, ok := w.phis[ph]; ok {
+						if pi < len(ph.Edges) && ph.Edges[pi] == ssa.Value(ph) {
+							continue // loop-carried: the flag keeps the value it had
+						}
 						if first {
 							env = append([]int8(nil), it.env...)
 							first = false
